@@ -21,6 +21,10 @@ type DocCase struct {
 	// package-level Parse function BEFORE the document under test: whatever the
 	// package keeps between calls (pools, tables) must not matter
 	Prev [][]byte `json:"prev,omitempty"`
+	// Cuts: the document reaches the parser through ParseReader over a reader
+	// that returns exactly these chunks (the value is the same however the
+	// bytes arrive)
+	Cuts []int `json:"cuts,omitempty"`
 }
 
 // drawPrev draws 0..2 earlier inputs: prefixes of the document and of another
@@ -40,6 +44,14 @@ func drawPrev(t *rapid.T, doc []byte, hostile []string) [][]byte {
 	return out
 }
 
+// drawDocCuts: 1 in 3 documents is delivered in chunks.
+func drawDocCuts(t *rapid.T, doc []byte, spans []ref.Span) []int {
+	if len(doc) < 2 || rapid.IntRange(0, 2).Draw(t, "chunked") != 0 {
+		return nil
+	}
+	return gen.Cuts(t, len(doc), spans)
+}
+
 func parsePrev(cd *codec, prev [][]byte) {
 	for _, p := range prev {
 		p := p
@@ -47,9 +59,15 @@ func parsePrev(cd *codec, prev [][]byte) {
 	}
 }
 
-func parseToTree(cd *codec, doc []byte) (model.V, []model.Ev, Outcome, error) {
+func parseToTree(cd *codec, doc []byte, cuts ...int) (model.V, []model.Ev, Outcome, error) {
 	rec := &model.Recorder{}
-	o := guard(func() error { return cd.Parse(doc, rec) })
+	o := guard(func() error {
+		if len(cuts) > 0 {
+			_, err := cd.ParseReader(&chunkReader{chunks: cloneChunks(gen.Split(doc, cuts))}, rec)
+			return err
+		}
+		return cd.Parse(doc, rec)
+	})
 	if o.Panicked() || o.Err != nil {
 		return model.V{}, rec.Evs, o, nil
 	}
@@ -80,7 +98,10 @@ func checkC05(ci any, info *CaseInfo) string {
 		info.Class("earlier_inputs")
 		parsePrev(codecs["cborl"], c.Prev)
 	}
-	got, _, o, terr := parseToTree(codecs["cborl"], c.Doc)
+	if len(c.Cuts) > 0 {
+		info.Class("chunked")
+	}
+	got, _, o, terr := parseToTree(codecs["cborl"], c.Doc, c.Cuts...)
 	if o.Panicked() {
 		return fmt.Sprintf("cborl parser panicked on %x: %v\n%s", trunc(c.Doc), o.Panic, o.Stack)
 	}
@@ -202,7 +223,10 @@ func checkC06(ci any, info *CaseInfo) string {
 		info.Class("earlier_inputs")
 		parsePrev(codecs["ubjson"], c.Prev)
 	}
-	got, _, o, terr := parseToTree(codecs["ubjson"], c.Doc)
+	if len(c.Cuts) > 0 {
+		info.Class("chunked")
+	}
+	got, _, o, terr := parseToTree(codecs["ubjson"], c.Doc, c.Cuts...)
 	if o.Panicked() {
 		return fmt.Sprintf("ubjson parser panicked on %q: %v\n%s", trunc(c.Doc), o.Panic, o.Stack)
 	}
@@ -232,7 +256,7 @@ func newUBJEnc(t *rapid.T) *ref.UBJEnc {
 func init() {
 	register(&Property{
 		ID:   "C05",
-		Rule: "rapid draws a value tree (ints over [-2^64,2^64-1], float32/64 bit patterns, arbitrary byte strings/keys, nested arrays/maps) and renders it with the harness' constructive CBOR encoder under drawn choices (argument width minimal or wider, definite/indefinite containers, byte string vs array, null/undefined); 1 in 5 cases splices exactly one unsupported item (negative below -2^63, tag, half float, indefinite string, simple value, non-text key) at a drawn position; deterministic part: 21 boundary values x every argument width that holds them x {unsigned, negative}, string/array/map lengths in every width, every unsupported item, each in 6 nesting contexts (top, definite/indefinite array and map, indefinite inside definite); 1 in 4 documents is parsed after 1..2 earlier calls of the package-level Parse on truncated prefixes / hostile headers; oracle = independent RFC 7049 decoder; non-trivial = non-minimal width, indefinite container, negative with top argument bit, depth>=2 or unsupported item; distinct by document hash",
+		Rule: "rapid draws a value tree (ints over [-2^64,2^64-1], float32/64 bit patterns, arbitrary byte strings/keys, nested arrays/maps) and renders it with the harness' constructive CBOR encoder under drawn choices (argument width minimal or wider, definite/indefinite containers, byte string vs array, null/undefined); 1 in 5 cases splices exactly one unsupported item (negative below -2^63, tag, half float, indefinite string, simple value, non-text key) at a drawn position; deterministic part: 21 boundary values x every argument width that holds them x {unsigned, negative}, string/array/map lengths in every width, every unsupported item, each in 6 nesting contexts (top, definite/indefinite array and map, indefinite inside definite); 1 in 4 documents is parsed after 1..2 earlier calls of the package-level Parse on truncated prefixes / hostile headers; 1 in 3 documents arrives through ParseReader in generated chunks; oracle = independent RFC 7049 decoder; non-trivial = non-minimal width, indefinite container, negative with top argument bit, depth>=2 or unsupported item; distinct by document hash",
 		New:  func() any { return &DocCase{} },
 		Draw: func(t *rapid.T) any {
 			if rapid.IntRange(0, 4).Draw(t, "unsup") == 4 {
@@ -242,20 +266,20 @@ func init() {
 			v := gen.Value(t, gen.ValueCfg{IntRange: "cbor", Floats32: true, Deep: true, NoEmptyKey: gen.Excluded("empty_key")})
 			e := &ref.CBOREnc{C: gen.RapidChooser{T: t}}
 			e.Encode(v)
-			return &DocCase{Doc: e.Out, Prev: drawPrev(t, e.Out, c03Hostile["cborl"])}
+			return &DocCase{Doc: e.Out, Prev: drawPrev(t, e.Out, c03Hostile["cborl"]), Cuts: drawDocCuts(t, e.Out, e.Spans)}
 		},
 		Check: checkC05,
 		Enum:  enumC05,
 	})
 	register(&Property{
 		ID:   "C06",
-		Rule: "rapid draws a value tree (int64, float32/64 bits, strings incl. decimal spellings, homogeneous and mixed containers) and renders it with the harness' constructive UBJSON encoder under drawn choices (every integer marker that holds the value, C, H, any length marker i/U/I/l/L, plain/counted/typed containers incl. typed containers of containers, no-ops at top level and in plain arrays); 1 in 4 documents is parsed after 1..2 earlier calls of the package-level Parse on truncated prefixes / hostile headers; oracle = independent draft-12 decoder; non-trivial = counted/typed container, non-minimal length marker, no-op or depth>=2; distinct by document hash",
+		Rule: "rapid draws a value tree (int64, float32/64 bits, strings incl. decimal spellings, homogeneous and mixed containers) and renders it with the harness' constructive UBJSON encoder under drawn choices (every integer marker that holds the value, C, H, any length marker i/U/I/l/L, plain/counted/typed containers incl. typed containers of containers, no-ops at top level and in plain arrays); 1 in 4 documents is parsed after 1..2 earlier calls of the package-level Parse on truncated prefixes / hostile headers; 1 in 3 documents arrives through ParseReader in generated chunks; oracle = independent draft-12 decoder; non-trivial = counted/typed container, non-minimal length marker, no-op or depth>=2; distinct by document hash",
 		New:  func() any { return &DocCase{} },
 		Draw: func(t *rapid.T) any {
 			v := gen.Value(t, gen.ValueCfg{IntRange: "int64", Floats32: true, Decimals: true, Deep: true})
 			e := newUBJEnc(t)
 			e.Encode(v)
-			return &DocCase{Doc: e.Out, Prev: drawPrev(t, e.Out, c03Hostile["ubjson"])}
+			return &DocCase{Doc: e.Out, Prev: drawPrev(t, e.Out, c03Hostile["ubjson"]), Cuts: drawDocCuts(t, e.Out, e.Spans)}
 		},
 		Check: checkC06,
 	})
